@@ -5,6 +5,7 @@
 #include <stdio.h>
 #include <stdlib.h>
 #include <string.h>
+#include <stdlib.h>
 
 static uint16_t inq[ENV_IN_MAX]; static size_t in_head, in_tail; static size_t consumed;
 static uint8_t *outb; static size_t out_len;
@@ -14,6 +15,7 @@ int env_log_to_stderr; unsigned env_log_lines;
 static const char *cfg_txt[3]; static int cfg_set;
 
 void env_reset(void) {
+	env_log_to_stderr = getenv("VERIF_LOG") != NULL;
 	in_head = in_tail = 0; consumed = 0; out_len = 0; nwr = 0;
 	if (!outb) outb = malloc(ENV_OUT_MAX);
 	if (!wr) wr = malloc(sizeof(env_write_t) * ENV_WR_MAX);
